@@ -1,2 +1,26 @@
 import PieModel.Props.C19
-#print axioms PieModel.C19_placeholder
+
+#print axioms PieModel.C19_store_wf_empty
+#print axioms PieModel.C19_newSession_wf
+#print axioms PieModel.C19_toPie_wf
+#print axioms PieModel.C19_setContent_store
+#print axioms PieModel.C19_store_ops_wf
+#print axioms PieModel.C19_task_to_res_never_cyclic
+#print axioms PieModel.C19_primitives_wf
+#print axioms PieModel.C19_reserveRequire_wf
+#print axioms PieModel.C19_updateRequire_wf
+#print axioms PieModel.C19_topdown_wf
+#print axioms PieModel.C19_sessionRequire_wf
+#print axioms PieModel.C19_requireAll_wf
+#print axioms PieModel.C19_scheduling_wf
+#print axioms PieModel.C19_bottomup_wf
+#print axioms PieModel.C19_buExecuteScheduled_wf
+#print axioms PieModel.C19_updateAffectedTasks_wf
+#print axioms PieModel.C19_bottomUpBuild_wf
+#print axioms PieModel.C19_tables_monotone
+#print axioms PieModel.C19_abort_topdown_usable
+#print axioms PieModel.C19_abort_bottomup_usable
+#print axioms PieModel.C19_runStep_wf
+#print axioms PieModel.C19_store_wf_history
+#print axioms PieModel.C19_history_usable
+#print axioms PieModel.C19_history_acyclic
